@@ -56,7 +56,7 @@ CONSTANTS Kind,              \* "geom": Trimesh / Path2D / Path3D / PointCloud; 
 VARIABLES lab,      \* [Geoms -> label]   metadata["units"] of every geometry ("-" = None)
           fac,      \* scale of the geometry relative to the original (vector)
           tfac,     \* scale of the instance placements relative to the original (scene; = fac otherwise)
-          prev,     \* "-" or [lab, fac, tfac]: the object left behind by copy() / Scene.convert_units
+          prev,     \* <<>> or [lab, fac, tfac]: the object left behind by copy() / Scene.convert_units
           hint,     \* metadata["name"] given at creation
           lastSet,  \* ghost: [Geoms -> label] last successfully assigned or converted to
           prod,     \* ghost: reference product of conversion factors and apply_scale arguments
@@ -66,8 +66,11 @@ VARIABLES lab,      \* [Geoms -> label]   metadata["units"] of every geometry ("
 
 vars == <<lab, fac, tfac, prev, hint, lastSet, prod, last, last2, hist>>
 View == <<lab, fac, tfac, prev, hint, lastSet, prod, last, last2>>
+\* emission of a state cover: one shortest history per (object state, kind of the last step)
+CoverView == <<lab, fac, tfac, prev, hint, IF last = <<>> THEN <<>> ELSE <<last.op, last.q, last.raised, last.guess>>>>
 
 None == "-"
+NoPrev == <<>>
 Geoms == IF Kind = "scene" THEN {"box", "cube"} ELSE {"self"}
 
 \* ------------------------------------------------------------ exact numbers
@@ -123,15 +126,22 @@ MetresPer(u) == MetresPerF[u]
 RefFactor(a, b) == Sub(MetresPer(a), MetresPer(b))   \* multiply by this to go from a to b
 
 \* ------------------------------ implementation shape: units_to_inches.json
-ToInchF == [u \in Known |-> IF MicroinchIsMil /\ u \in {"microinches", "microinch"} THEN Pow10(-3)
-                            ELSE Sub(MetresPer(u), Inch)]
+ToInchWith(dev) == [u \in Known |-> IF dev /\ u \in {"microinches", "microinch"} THEN Pow10(-3)
+                                     ELSE Sub(MetresPer(u), Inch)]
+ToInchF == ToInchWith(MicroinchIsMil)
+ToInchDev == ToInchWith(TRUE)             \* the named deviation, whatever the switch says (attribution in the harness)
 ToInch(u) == ToInchF[u]
 \* "{float} * {unit}" labels understood by to_inch: <<normalised label, num, den, unit>>
 FactorForms == {<<"2 * mm", 2, 1, "mm">>, <<"0.5*in", 1, 2, "in">>}
 FF(u) == CHOOSE f \in FactorForms : f[1] = u
-HasLen(u) == u \in Known \/ \E f \in FactorForms : f[1] = u
-InchLen(u) == IF u \in Known THEN ToInch(u) ELSE Add(Rat(FF(u)[2], FF(u)[3]), ToInch(FF(u)[4]))
-RefLen(u)  == IF u \in Known THEN MetresPer(u) ELSE Add(Rat(FF(u)[2], FF(u)[3]), MetresPer(FF(u)[4]))
+FormNames == {f[1] : f \in FactorForms}
+HasLen(u) == u \in Known \/ u \in FormNames
+InchLenF == [u \in Known \cup FormNames |->
+               IF u \in Known THEN ToInch(u) ELSE Add(Rat(FF(u)[2], FF(u)[3]), ToInch(FF(u)[4]))]
+RefLenF  == [u \in Known \cup FormNames |->
+               IF u \in Known THEN MetresPer(u) ELSE Add(Rat(FF(u)[2], FF(u)[3]), MetresPer(FF(u)[4]))]
+InchLen(u) == InchLenF[u]
+RefLen(u)  == RefLenF[u]
 
 \* raw strings and what str(value).lower().strip() makes of them
 RawTable == {<<"mm", "mm">>, <<" MM ", "mm">>, <<"Inches", "inches">>, <<"in", "in">>, <<"m", "m">>,
@@ -140,13 +150,15 @@ RawTable == {<<"mm", "mm">>, <<" MM ", "mm">>, <<"Inches", "inches">>, <<"in", "
              <<"Miles", "miles">>, <<"angstrom", "angstrom">>, <<"au", "au">>, <<"\"", "\"">>,
              <<"Light Years", "light years">>, <<"parsec", "parsec">>, <<"mm * 2", "mm * 2">>,
              <<"yards", "yards">>, <<"kilometers", "kilometers">>, <<"", "">>}
-Norm(raw) == (CHOOSE p \in RawTable : p[1] = raw)[2]
+NormF == [r \in {p[1] : p \in RawTable} |-> (CHOOSE p \in RawTable : p[1] = r)[2]]
+Norm(raw) == NormF[raw]
 
 \* metadata names and the unit units_from_metadata finds in them (needs the substring "unit";
 \* delimiters "_-." become blanks; tokens lose "units"/"unit"; first token that is a known unit)
 HintTable == {<<"-", None>>, <<"bracket_units_mm", "mm">>, <<"Gear-UNIT-IN.v2", "in">>,
               <<"plate_mm", None>>, <<"units unknown", None>>, <<"a.unit.meters.x", "meters">>}
-HintUnit(h) == (CHOOSE p \in HintTable : p[1] = h)[2]
+HintUnitF == [h \in {p[1] : p \in HintTable} |-> (CHOOSE p \in HintTable : p[1] = h)[2]]
+HintUnit(h) == HintUnitF[h]
 
 \* fixed-point decimal logarithms (x 10^6) for the one magnitude comparison in the code:
 \* units_from_metadata guesses "millimeters" when obj.scale > 100 and "inches" otherwise
@@ -157,13 +169,17 @@ LogVal(v) == LET RECURSIVE S(_)
 BaseScale == IF Kind = "scene" THEN 22 ELSE 13        \* AABB diagonal of the original object
 LogThr == IF Kind = "scene" THEN 657577 ELSE 886057   \* 10^6 log10(100 / BaseScale)
 GuessOf(f) == IF LogVal(f) > LogThr THEN "millimeters" ELSE "inches"
+\* Geometry.scale is documented as a loose order of magnitude: a diagonal below tol.zero = 1e-13 reads as 1.0
+\* (Scene.scale has no such clamp)
+TinyThr == -14113943                                   \* 10^6 log10(1e-13 / 13)
+ScaleClamped(f) == Kind = "geom" /\ LogVal(f) < TinyThr
 
 \* ---------------------------------------------------------------- the machine
 ObjLabel(l) == IF \A g, h \in Geoms : l[g] = l[h] THEN l[CHOOSE g \in Geoms : TRUE] ELSE None
 Mixed(l) == \E g, h \in Geoms : l[g] # l[h]
-Snap == [lab |-> lab, fac |-> fac, tfac |-> tfac]
+Snap == [lab |-> lab, fac |-> fac, tfac |-> tfac, tol |-> TolExp(fac)]
 
-Init == /\ lab = [g \in Geoms |-> None] /\ fac = Z /\ tfac = Z /\ prev = None
+Init == /\ lab = [g \in Geoms |-> None] /\ fac = Z /\ tfac = Z /\ prev = NoPrev
         /\ hint \in Hints
         /\ lastSet = [g \in Geoms |-> None] /\ prod = Z
         /\ last = <<>> /\ last2 = <<>> /\ hist = <<>>
@@ -172,14 +188,15 @@ Init == /\ lab = [g \in Geoms |-> None] /\ fac = Z /\ tfac = Z /\ prev = None
 Out(op, raw, guess, k, q, g, raised, dev, src) ==
     [op |-> op, raw |-> raw, guess |-> guess, k |-> k, q |-> q, g |-> g, raised |-> raised, dev |-> dev,
      src |-> src, before |-> Snap, pbefore |-> prev,
-     lab |-> lab', fac |-> fac', tfac |-> tfac', prev |-> prev', tol |-> TolExp(fac')]
+     lab |-> lab', fac |-> fac', tfac |-> tfac', prev |-> prev', tol |-> TolExp(fac'),
+     clamp |-> ScaleClamped(fac')]
 Step(rec) == /\ last' = rec /\ last2' = last /\ hist' = Append(hist, rec)
 
 \* obj.units = raw   (Geometry.units setter; Scene.units setter assigns every geometry)
 Assign(S, raw, opname, gname) ==
     /\ lab' = [g \in Geoms |-> IF g \in S THEN Norm(raw) ELSE lab[g]]
     /\ lastSet' = [g \in Geoms |-> IF g \in S THEN Norm(raw) ELSE lastSet[g]]
-    /\ prev' = IF MutCopyShares /\ prev # None
+    /\ prev' = IF MutCopyShares /\ prev # NoPrev
                THEN [prev EXCEPT !.lab = [g \in Geoms |-> IF g \in S THEN Norm(raw) ELSE prev.lab[g]]]
                ELSE prev
     /\ UNCHANGED <<fac, tfac, hint, prod>>
@@ -278,7 +295,7 @@ SceneConvertLeavesOriginal ==
     (Kind = "scene" /\ IsConv /\ ~last.raised) => prev = last.before
 \* the scale comparison behind the guess is decided by the fixed-point logarithms with a wide margin
 Abs(x) == IF x < 0 THEN -x ELSE x
-GuessDecidable == Abs(LogVal(fac) - LogThr) > 2000
+GuessDecidable == Abs(LogVal(fac) - LogThr) > 2000 /\ Abs(LogVal(fac) - TinyThr) > 2000
 
 \* ----------------------------------------------- the table (run with MaxDepth = 0)
 \* unit_conversion(a,b) unit_conversion(b,a) = 1 ; unit_conversion(a,c) = unit_conversion(a,b) unit_conversion(b,c)
@@ -328,14 +345,18 @@ LogTableSound ==
 TableInv == /\ UnitLaws /\ NoNearUnitFactor /\ MicrometreCrossCheck /\ RationalLaws /\ LogTableSound
 
 \* --------------------------------------------------------------- emission
-EmitRec == [kind |-> Kind, hint |-> hint, h |-> hist]
+\* the emitted step: arguments, outcome and the state after it (the state before is the previous step's)
+Slim(r) == [op |-> r.op, raw |-> r.raw, guess |-> r.guess, k |-> r.k, q |-> r.q, g |-> r.g, raised |-> r.raised,
+            dev |-> r.dev, src |-> r.src, lab |-> r.lab, fac |-> r.fac, tfac |-> r.tfac, prev |-> r.prev,
+            tol |-> r.tol, clamp |-> r.clamp]
+EmitRec == [kind |-> Kind, hint |-> hint, h |-> [i \in 1..Len(hist) |-> Slim(hist[i])]]
 EmitAll  == PrintT(ToJson(EmitRec))
 EmitLeaf == (Len(hist) = MaxDepth) => PrintT(ToJson(EmitRec))
 SetToSeq(S) == LET RECURSIVE Ser(_)
                    Ser(T) == IF T = {} THEN <<>> ELSE LET x == CHOOSE x \in T : TRUE IN <<x>> \o Ser(T \ {x})
                IN Ser(S)
 \* reference table for the harness: every ordered pair of known labels, the factor-form labels, the scenario
-PairSeq == IF Live THEN {[a |-> a, b |-> b, f |-> RefFactor(a, b), asb |-> AsBuiltFactor(a, b), tol |-> TolExp(RefFactor(a, b))]
+PairSeq == IF Live THEN {[a |-> a, b |-> b, f |-> RefFactor(a, b), asb |-> Sub(ToInchDev[a], ToInchDev[b]), tol |-> TolExp(RefFactor(a, b))]
                      : a \in Known, b \in Known} ELSE {}
 FormSeq == ({[a |-> f[1], b |-> u, f |-> Sub(RefLen(f[1]), RefLen(u)), known |-> TRUE] : f \in FactorForms, u \in {"mm", "in", "m"}}
                     \cup {[a |-> p[2], b |-> "mm", f |-> Z, known |-> FALSE] : p \in {q \in RawTable : ~HasLen(q[2])}})
